@@ -186,6 +186,11 @@ func c02Run(c *mon.Ctx, unit int) {
 			c.Sample("rule set rejected by Check", map[string]any{"schema": text, "error": built.check.String()})
 			if built.check.Panic != "" {
 				c.Violate("check", c02Case{text, ""}, "no panic", built.check.String(), "Check panicked on a scalar rule set")
+			} else if want := model.NewOracle(s).Accepts(gen.ExampleVal(sc.Node)); want == model.Accept {
+				// the generator writes only rule sets the applicability table allows; when the
+				// scalar-rule oracle also says that the example obeys every rule, Check has
+				// nothing to refuse (and a refusal here would hide every verdict below)
+				c.Violate("legal", c02Case{text, ""}, "accept", built.check.String(), "Check refuses a scalar rule set whose example obeys all of its rules")
 			}
 			continue
 		}
@@ -297,6 +302,11 @@ func init() {
 				var cs c02Case
 				json.Unmarshal(raw, &cs)
 				return noPanic(lib.Validate(lib.Spec{Text: cs.Schema}, cs.Doc))
+			},
+			"legal": func(raw json.RawMessage) string {
+				var cs c02Case
+				json.Unmarshal(raw, &cs)
+				return lib.Check(lib.Spec{Text: cs.Schema}).Verdict()
 			},
 			"exh-check": func(raw json.RawMessage) string {
 				var cs c02Case
